@@ -100,8 +100,8 @@ theorem pushNone_raised : ∀ (b : B), Raised ext (positions b) Placeholder (pus
   | .dictionary p idx vals index => by
     unfold pushNone
     refine Raised.ctx_own _ (.val .none) subset_refl' placeholder_none (fun msg h => .body h)
-      (Raised.bind (Raised.ctx_own _ (.val .none) subset_refl' placeholder_none
-        (fun msg h => absurd h (pushNone_never_plain idx msg)) (Raised.monoS ?_ (pushNone_raised idx))) fun _ _ => Raised.of_ok _)
+      (Raised.ite _ (NoCtx.raised _) (Raised.bind (Raised.ctx_own _ (.val .none) subset_refl' placeholder_none
+        (fun msg h => absurd h (pushNone_never_plain idx msg)) (Raised.monoS ?_ (pushNone_raised idx))) fun _ _ => Raised.of_ok _))
     intro q hq; simp only [positions, List.mem_cons, List.mem_append]; exact .inr (.inl hq)
 
 /-! ### struct rows -/
